@@ -3,7 +3,7 @@
 
 * grid generation for `cartesian` (dim 2, 3; lines 632-816), `annulus` (dim 2; lines 817-897) and `chunk` (dim 2, 3; lines 898-1117)
   with `compress_size == true` (it is a `const bool` set to `true` at line 621, so the `!compress_size` branches are dead code and are
-  not modelled).  The `sphere` grid is not modelled.
+  not modelled).  The `sphere` grid is modelled in GridSphere.lean.
 * the VTK arrays `points`, `connectivity`, `offsets`, `types` (lines 1510-1564);
 * `filter_vtu_mesh` (lines 82-146).
 
